@@ -289,7 +289,8 @@ RUST_HEAD = "use emit_core::timestamp::{Parts, Timestamp};\nuse std::time::Durat
 
 
 def _rust_ts(name, secs, nanos):
-    return "    let %s = Timestamp::from_unix(Duration::new(%d, %d)).expect(\"model input outside [MIN, MAX]: not a counterexample\");\n" % (name, secs, nanos)
+    return ("    let %s = match Timestamp::from_unix(Duration::new(%d, %d)) { Some(t) => t, None => { println!(\"model input outside [MIN, MAX]: "
+            "not a counterexample\"); return; } };\n" % (name, secs, nanos))
 
 
 def obligations(encs, tier):
@@ -364,7 +365,7 @@ def obligations(encs, tier):
 
         def r4(m):
             return (RUST_HEAD + "fn main() {\n" + _rust_ts("t1", m["secs1"], m["nanos1"]) + _rust_ts("t2", m["secs2"], m["nanos2"]) +
-                    "    assert!(t1 < t2, \"model does not satisfy t1 < t2: not a counterexample\");\n"
+                    "    if !(t1 < t2) { println!(\"model does not satisfy t1 < t2: not a counterexample\"); return; }\n"
                     "    // Parts derives Ord: lexicographic (years, months, days, hours, minutes, seconds, nanos)\n"
                     "    assert!(t1.to_parts() < t2.to_parts(), \"to_parts not monotone: {:?} -> {:?}, {:?} -> {:?}\", t1.to_unix(), t1.to_parts(), t2.to_unix(), t2.to_parts());\n}\n")
 
